@@ -611,10 +611,31 @@ fn run_ladder(case: &Value, args: &Args, rng: &mut Rng) -> Result<(Value, u64), 
 }
 
 pub fn run(args: &Args) {
+    // Watchdog: a case that does not finish (e.g. a braid that never terminates) ends the engine
+    // with status 3; the driver reports the case being executed as failed (engine-crash class).
+    let limit = args.opt_u64("case_timeout", 300);
+    let started = std::sync::Arc::new(std::sync::atomic::AtomicU64::new(0));
+    {
+        let started = started.clone();
+        let t0 = std::time::Instant::now();
+        std::thread::spawn(move || loop {
+            std::thread::sleep(std::time::Duration::from_secs(1));
+            let s = started.load(std::sync::atomic::Ordering::Relaxed);
+            if s > 0 && t0.elapsed().as_secs() > s + limit {
+                eprintln!("vh-graph: a case did not finish within {limit} s (non-termination in the code under test)");
+                std::process::exit(3);
+            }
+        });
+    }
+    let t0 = std::time::Instant::now();
     let mut out = args.out();
     for (i, case) in args.read_input().iter().enumerate() {
         let mut rng = Rng::new(args.seed ^ (i as u64).wrapping_mul(0x9E37_79B9));
+        started.store(t0.elapsed().as_secs() + 1, std::sync::atomic::Ordering::Relaxed);
         let is_ladder = case.get("rungs").is_some() || case.get("fan").is_some();
+        if is_ladder || i % 256 == 0 {
+            out.flush();
+        }
         let is_star = case.get("star").is_some();
         match vrt::catch_any(|| if is_star { run_star(case, args, &mut rng) } else if is_ladder { run_ladder(case, args, &mut rng) } else { run_case(case, args, &mut rng) }) {
             Ok(Ok((obs, drift))) => out.emit(json!({"i": i, "ok": true, "step": -1, "obs": obs, "drift": drift})),
